@@ -435,10 +435,31 @@ func (c *ctl) perform(a Act) {
 	c.terms = append(c.terms, "["+strings.TrimSuffix(sb.String(), ";")+"]")
 }
 
-// runCtl runs a controlled case.  With given != nil those actions are replayed (inapplicable ones are
-// skipped); otherwise the script is drawn from the PRNG according to what the threads are doing.
+// options lists the actions the driver can perform now, in a fixed order
+func (c *ctl) options(nkeys int, noRemove bool) []Act {
+	var o []Act
+	for _, w := range c.workers {
+		switch w.h {
+		case hIdle:
+			for k := 0; k < nkeys; k++ {
+				o = append(o, Act{K: "s", T: w.id, Op: "G", Key: int64(k)})
+			}
+			if !noRemove {
+				o = append(o, Act{K: "s", T: w.id, Op: "R", Key: 0})
+			}
+			o = append(o, Act{K: "s", T: w.id, Op: "C"})
+		case hInCreate:
+			o = append(o, Act{K: "r", T: w.id, Ok: true}, Act{K: "r", T: w.id, Ok: false})
+		}
+	}
+	return o
+}
+
+// runCtl runs a controlled case.  With cs.Acts != nil those actions are replayed (inapplicable ones are
+// skipped); with choose != nil the script is enumerated (choose picks among options() at every step);
+// otherwise the script is drawn from the PRNG according to what the threads are doing.
 // Every run is driven to the end: pending creations are released, then thread 0 calls Clear.
-func runCtl(cs *Case, r *prng.R, res *result) {
+func runCtl(cs *Case, r *prng.R, choose func(step int, opts []Act) (Act, bool), res *result) {
 	c := newCtl(cs.Cap, cs.Threads)
 	nkeys := int64(cs.Keys)
 	if cs.Acts != nil {
@@ -449,6 +470,14 @@ func runCtl(cs *Case, r *prng.R, res *result) {
 			if c.applicable(a) {
 				c.perform(a)
 			}
+		}
+	} else if choose != nil {
+		for i := 0; !c.hung; i++ {
+			a, ok := choose(i, c.options(cs.Keys, cs.NoRemove))
+			if !ok {
+				break
+			}
+			c.perform(a)
 		}
 	} else {
 		steps := r.Range(10, 26)
@@ -525,9 +554,6 @@ func runCtl(cs *Case, r *prng.R, res *result) {
 	cs.Acts = c.acts
 	res.Term = fmt.Sprintf("CaseCtl %d%%N %d%%nat %d [%s]", cs.ID, cs.Cap, mod, strings.Join(c.terms, "; "))
 	waits, fails := 0, 0
-	for _, w := range c.terms {
-		_ = w
-	}
 	for _, a := range c.acts {
 		res.count("ctl-act:" + a.K + a.Op)
 		if a.K == "r" && !a.Ok {
@@ -545,4 +571,56 @@ func runCtl(cs *Case, r *prng.R, res *result) {
 	res.count(fmt.Sprintf("ctl-threads:%d", cs.Threads))
 	res.count(fmt.Sprintf("ctl-cap:%d", cs.Cap))
 	res.Nontrivial = len(c.acts) >= 3 && (waits > 0 || fails > 0)
+}
+
+// enumCtl runs every script of cs.Depth driver choices that starts with cs.Root (depth-first, re-running
+// from scratch; the number of options at a step is only known once the step is reached)
+func enumCtl(root Case, seed uint64, emit func(*result)) {
+	path := append([]int(nil), root.Root...)
+	for {
+		var counts []int
+		taken := []int{}
+		cs := root
+		cs.Mode, cs.Root, cs.Depth, cs.Acts = "ctl", nil, 0, nil
+		noRemove := root.NoRemove
+		cs.NoRemove = noRemove
+		res := &result{}
+		func() {
+			defer func() {
+				if r := recover(); r != nil {
+					res.direct("the driver panicked", fmt.Sprint(r))
+					res.Term = fmt.Sprintf("CaseFree 0%%N 1%%nat %d [1]", mod)
+				}
+			}()
+			runCtl(&cs, nil, func(step int, opts []Act) (Act, bool) {
+				if step >= root.Depth || len(opts) == 0 {
+					return Act{}, false
+				}
+				ch := 0
+				if step < len(path) {
+					ch = path[step]
+				}
+				if ch >= len(opts) {
+					return Act{}, false
+				}
+				counts = append(counts, len(opts))
+				taken = append(taken, ch)
+				return opts[ch], true
+			}, res)
+		}()
+		res.Case = cs
+		res.count("ctl-enumerated")
+		emit(res)
+		if hangs >= 3 {
+			return
+		}
+		i := len(taken) - 1
+		for i >= len(root.Root) && taken[i]+1 >= counts[i] {
+			i--
+		}
+		if i < len(root.Root) {
+			return
+		}
+		path = append(append([]int(nil), taken[:i]...), taken[i]+1)
+	}
 }
